@@ -438,6 +438,7 @@ func checkC20(c *Ctx) {
 
 	// ---- SELECT in loadScript
 	c20Select(c, ls)
+	c20ScanFilter(c)
 }
 
 func valueOf(in ssa.Instruction) ssa.Value {
@@ -591,4 +592,187 @@ func c20Select(c *Ctx, ls *ssa.Function) {
 		}
 	})
 	r.Ob("SELECT", "the selected script's load error is returned", t.Pos(ls.Pos()), okErr, "errs[key] must be returned instead of a script")
+}
+
+// c20ScanFilter: the workspace scan (engine.ReadPlScriptFromDir) may leave a directory entry out only because it
+// is a directory or because its name lacks a script extension. Any other filter (entry type bits, Info(), name
+// prefixes, sizes) leaves out files that the library loads when they are given singly — the selected script or a
+// sibling it use()s is then "not found" although the same workspace runs through the library.
+func c20ScanFilter(c *Ctx) {
+	r, t := c.R, c.T
+	f := t.Func(pEngine, "ReadPlScriptFromDir")
+	if f == nil {
+		r.Undecided("SELECT", "engine.ReadPlScriptFromDir", "pkg/engine/engine.go", "unresolved anchor")
+		return
+	}
+	r.Fn(relName(f))
+	// the entries: result #0 of os.ReadDir
+	var entries ssa.Value
+	allInstrs(f, func(in ssa.Instruction) {
+		if ex, ok := in.(*ssa.Extract); ok && ex.Index == 0 {
+			if call, ok := ex.Tuple.(*ssa.Call); ok && call.Call.StaticCallee() != nil && call.Call.StaticCallee().String() == "os.ReadDir" {
+				entries = ex
+			}
+		}
+	})
+	if entries == nil {
+		r.Undecided("SELECT", "workspace scan lists the directory with os.ReadDir", t.Pos(f.Pos()), "no os.ReadDir call found in ReadPlScriptFromDir")
+		return
+	}
+	// the reads: calls that hand an entry's path on (ReadPlScriptFromFile / os.ReadFile)
+	var reads []ssa.Instruction
+	allInstrs(f, func(in ssa.Instruction) {
+		if ci, ok := in.(*ssa.Call); ok && ci.Call.StaticCallee() != nil {
+			n := ci.Call.StaticCallee().String()
+			if fnName(ci.Call.StaticCallee()) == "ReadPlScriptFromFile" || n == "os.ReadFile" {
+				reads = append(reads, in)
+			}
+		}
+	})
+	if len(reads) == 0 {
+		r.Undecided("SELECT", "workspace scan reads the entries it keeps", t.Pos(f.Pos()), "no ReadPlScriptFromFile / os.ReadFile call found in ReadPlScriptFromDir")
+		return
+	}
+	// every condition that controls a read must be of an admitted kind
+	var isEntry func(v ssa.Value, d int) bool
+	isEntry = func(v ssa.Value, d int) bool {
+		if d > 6 || v == nil {
+			return false
+		}
+		switch x := v.(type) {
+		case *ssa.UnOp:
+			return isEntry(x.X, d+1)
+		case *ssa.IndexAddr:
+			return x.X == entries || isEntry(x.X, d+1)
+		case *ssa.Index:
+			return x.X == entries
+		case *ssa.Phi:
+			for _, e := range x.Edges {
+				if isEntry(e, d+1) {
+					return true
+				}
+			}
+		case *ssa.Alloc:
+			for _, ref := range *x.Referrers() {
+				if s, ok := ref.(*ssa.Store); ok && s.Addr == ssa.Value(x) && isEntry(s.Val, d+1) {
+					return true
+				}
+			}
+		case *ssa.Extract:
+			if nx, ok := x.Tuple.(*ssa.Next); ok {
+				if rg, ok := nx.Iter.(*ssa.Range); ok {
+					return rg.X == entries
+				}
+			}
+		}
+		if _, isParam := v.(*ssa.Parameter); isParam && strings.Contains(v.Type().String(), "DirEntry") {
+			return true // inside a predicate helper the entry is the parameter
+		}
+		return v == entries
+	}
+	var admitted func(v ssa.Value, d int) (bool, string)
+	admitted = func(v ssa.Value, d int) (bool, string) {
+		if d > 4 {
+			return false, "too deep"
+		}
+		switch x := v.(type) {
+		case *ssa.UnOp:
+			if x.Op == token.NOT {
+				return admitted(x.X, d+1)
+			}
+		case *ssa.Call:
+			if x.Call.IsInvoke() && x.Call.Method.Name() == "IsDir" && isEntry(x.Call.Value, 0) {
+				return true, "entry.IsDir()"
+			}
+			if cal := x.Call.StaticCallee(); cal != nil && (cal.String() == "strings.HasSuffix") {
+				if _, ok := x.Call.Args[1].(*ssa.Const); ok {
+					return true, "name suffix"
+				}
+			}
+			// a predicate helper of the module: every test it makes and every answer it computes is of an admitted kind
+			if cal := x.Call.StaticCallee(); cal != nil && len(cal.Blocks) > 0 && inModule(cal) {
+				okAll, why := true, "helper "+fnName(cal)
+				allInstrs(cal, func(in ssa.Instruction) {
+					switch y := in.(type) {
+					case *ssa.If:
+						if ok, w := admitted(y.Cond, d+1); !ok {
+							okAll, why = false, w
+						}
+					case *ssa.Return:
+						for _, res := range y.Results {
+							if _, isC := res.(*ssa.Const); isC {
+								continue
+							}
+							if b, isB := res.Type().Underlying().(*types.Basic); isB && b.Kind() == types.Bool {
+								if _, isPhi := res.(*ssa.Phi); isPhi {
+									continue // joins of tested answers; the tests themselves are inspected above
+								}
+								if ok, w := admitted(res, d+1); !ok {
+									okAll, why = false, w
+								}
+							}
+						}
+					}
+				})
+				return okAll, why
+			}
+		case *ssa.BinOp:
+			if x.Op == token.EQL || x.Op == token.NEQ || x.Op == token.LSS || x.Op == token.GEQ {
+				for i, o := range []ssa.Value{x.X, x.Y} {
+					other := []ssa.Value{x.Y, x.X}[i]
+					if k, ok := o.(*ssa.Const); ok {
+						if k.IsNil() {
+							return true, "nil test"
+						}
+						if call, ok := other.(*ssa.Call); ok && call.Call.StaticCallee() != nil && call.Call.StaticCallee().String() == "path/filepath.Ext" {
+							return true, "extension test"
+						}
+						if _, ok := other.(*ssa.Phi); ok || isLoopIndex(other) {
+							return true, "loop index"
+						}
+					}
+				}
+				if isLoopIndex(x.X) || isLoopIndex(x.Y) {
+					return true, "loop index"
+				}
+			}
+		case *ssa.Extract:
+			if _, ok := x.Tuple.(*ssa.Next); ok && x.Index == 0 {
+				return true, "range ok"
+			}
+		}
+		return false, v.String()
+	}
+	{
+		// every test the scan makes (the function does nothing else than list, filter and read): a skip hidden in one
+		// arm of a && or || dominates nothing, so all branch conditions are inspected, not only the dominating ones
+		var bad []string
+		n := 0
+		allInstrs(f, func(in ssa.Instruction) {
+			iff, ok := in.(*ssa.If)
+			if !ok {
+				return
+			}
+			n++
+			if ok, why := admitted(iff.Cond, 0); !ok {
+				bad = append(bad, why+" at "+t.Pos(iff.Cond.Pos()))
+			}
+		})
+		r.Ob("SELECT", "workspace scan leaves an entry out only for being a directory or lacking a script extension", t.Pos(reads[0].Pos()), len(bad) == 0,
+			fmt.Sprintf("%d branch conditions of ReadPlScriptFromDir inspected (%d reads); not admitted: %s — a file the library loads when given singly (a symbolic link, say) would be missing from the workspace, so the CLI reports `not found` where the library runs the script", n, len(reads), strings.Join(bad, "; ")))
+	}
+}
+
+func isLoopIndex(v ssa.Value) bool {
+	switch x := v.(type) {
+	case *ssa.Phi:
+		return true
+	case *ssa.BinOp:
+		if _, ok := x.X.(*ssa.Phi); ok {
+			return true
+		}
+	case *ssa.Call:
+		return builtinName(x) == "len"
+	}
+	return false
 }
